@@ -52,5 +52,5 @@ Check solve_lu_sound_c02 : forall (A : Arith), FieldLaws A -> PivLaws A -> foral
   length x = rows M /\
   forall i, i < rows M -> mvprod (rows M) (ent M) (fun k => nth k x zero) i = nth i b zero.
 Print Assumptions solve_lu_sound_c02.
-Example solve_lu_sound_nonvacuous : wf M3 /\ rows M3 = cols M3 /\ exists x, solve_lu M3 [q 1 1; q 2 1; q 3 1] = Ok x.
+Example solve_lu_sound_nonvacuous : wf M3 /\ rows M3 = cols M3 /\ exists x, solve_lu M3 b3 = Ok x.
 Proof. split; [reflexivity|]. split; [reflexivity|]. eexists. vm_compute. reflexivity. Qed.
